@@ -348,9 +348,9 @@ namespace mfuse
         table = new(Entry_allocator.AllocTable(sizeof(Entry<KeyT, ValueT>*) * tableLength)) Entry<KeyT, ValueT> *[tableLength]();
 
         // rehash the table
-        for (uintptr_t i = std::min(oldTableLength, newCount); i > 0; i--)
+        for (uintptr_t i = oldTableLength; i > 0; i--)
         {
-            // rehash all entries from the old table
+            // rehash all entries from the old table (every bucket of it, also when the new table is shorter)
             Entry<KeyT, ValueT>* old;
             for (Entry<KeyT, ValueT>* e = oldTable[i - 1]; e != nullptr; e = old)
             {
